@@ -1,0 +1,38 @@
+#ifndef KALIGN_VERIF_H
+#define KALIGN_VERIF_H
+
+/* Observation hooks for the external verification harness.
+   Compiled in only with -DKALIGN_VERIF; without it every macro below
+   expands to nothing. */
+
+#ifdef KALIGN_VERIF
+
+#define KV_EV_SORTED      1  /* kalign_run: after msa_sort_len_name          p=msa                      */
+#define KV_EV_TREE        2  /* kalign_run: after build_tree_kmeans          p=msa q=aln_tasks           */
+#define KV_EV_PARAMS      3  /* kalign_run: after aln_param_init             p=msa q=aln_param x=type    */
+#define KV_EV_MERGE_BEGIN 4  /* recursive_aln: before do_align               p=msa q=aln_tasks x=task    */
+#define KV_EV_MERGE_END   5  /* recursive_aln: after do_align                p=msa q=aln_tasks x=task    */
+#define KV_EV_NODE_DONE   6  /* do_align: node complete                      p=msa q=aln_mem x=a y=b z=c */
+#define KV_EV_FWD_BEGIN   7  /* DP kernels                                   p=aln_mem x=kernel kind     */
+#define KV_EV_FWD_END     8
+#define KV_EV_BWD_BEGIN   9
+#define KV_EV_BWD_END    10
+#define KV_EV_MEET_BEGIN 11
+#define KV_EV_MEET_END   12  /*                                              y=meet z=transition         */
+
+typedef void (*kalign_verif_cb_t)(int ev, const void* p, const void* q, int x, int y, int z);
+#ifdef __cplusplus
+extern "C" kalign_verif_cb_t kalign_verif_cb;
+#else
+extern kalign_verif_cb_t kalign_verif_cb;
+#endif
+
+#define KALIGN_VERIF_EVENT(ev,p,q,x,y,z) do{ if(kalign_verif_cb){ kalign_verif_cb((ev),(p),(q),(x),(y),(z)); } }while(0)
+
+#else
+
+#define KALIGN_VERIF_EVENT(ev,p,q,x,y,z)
+
+#endif
+
+#endif
